@@ -8,6 +8,9 @@ const fn trailing_zeros_large(words: &[Word]) -> usize
         ret < words@.len() * WORD_BITS_USIZE,
         bit_at(words@, ret as int),
         forall|i: int| 0 <= i < ret ==> !bit_at(words@, i),
+        // the same in numbers: binary digit ret of val(words) is 1, all lower digits are 0
+        (val(words@) / pow2(ret as int)) % 2 == 1,
+        forall|i: int| 0 <= i < ret ==> (val(words@) / pow2(i)) % 2 != 1,
 @*/
 {
     let mut zero_words = 0;
@@ -28,6 +31,11 @@ const fn trailing_zeros_large(words: &[Word]) -> usize
     }
 
     let zero_bits = words[zero_words].trailing_zeros() as usize;
-    /*@ proof { lemma_bits_first_set(words@, 0, zero_words as int, zero_bits as u32); } @*/
+    /*@ proof {
+        lemma_bits_first_set(words@, 0, zero_words as int, zero_bits as u32);
+        let r = zero_words as int * WORD_BITS_USIZE as int + zero_bits as int;
+        lemma_bits_bit_at_val(words@, r);
+        assert forall|i: int| 0 <= i < r implies (val(words@) / pow2(i)) % 2 != 1 by { lemma_bits_bit_at_val(words@, i); }
+    } @*/
     zero_words * WORD_BITS_USIZE + zero_bits
 }
